@@ -493,6 +493,8 @@ const BTOR2_DOCS: &[&[u8]] = &[
     b"1 sort bitvec 4\n2 input 1\n3 not 1 2\n4 add 1 2 3\n5 ite 1 2 3 4\n6 slice 1 2 3 0\n7 uext 1 2 4 sym\n8 justice 2 2 3\n9 fair 2\n10 output 2\n",
     // per-line state must not leak into the next line: repeated multi-operand lines, comments and symbols
     b"1 sort bitvec 1\n2 input 1\n3 input 1\n4 input 1\n5 justice 2 2 3\n6 justice 1 4\n7 justice 3 4 3 2\n8 ite 1 2 3 4 s ; c1\n9 ite 1 4 3 2\n10 input 1 ; c2\n11 input 1\n",
+    // constants of every base after one another, in every order: the constant buffer must not carry over
+    b"1 sort bitvec 8\n2 consth 1 ff\n3 const 1 101\n4 constd 1 12\n5 const 1 1\n6 consth 1 a\n7 constd 1 -3\n8 constd 1 5\n9 consth 1 0\n10 const 1 0\n",
     b"; only a comment\n\n  \n1 sort bitvec 1\n",
     b"1 sort bitvec 1",
     b"1 sort bitvec 1 ; no newline",
